@@ -225,6 +225,57 @@ def run(chk):
     else:
         chk.violation("C15.rangelex", hr, "re.findall(r'^bytes=(\\d*)-(\\d*)$', rng, re.ASCII)", "", "Range parsing is no longer lexically gated")
     conditional_rules(chk, repo)
+    hunt3_rules(chk, repo)
+
+
+def hunt3_rules(chk, repo):
+    """Rules written after the third defect hunt (F195, F196)."""
+    UD = "aiohttp/web_urldispatcher.py"
+    # ---- C15.sandbox.fixpoint: only a path that resolves to itself is taken for resolved -----------------------------------------------------
+    # Path.resolve() (non-strict, python < 3.13) gives up at a symlink loop and returns the remainder of the path as it stands, symlinks
+    # included; relative_to(root) on such a half-resolved path proves nothing about where the file the OS will open lives.
+    n = 0
+    sr = repo.cls(UD, "StaticResource")
+    for mname, m in sr.methods.items():
+        defs = norm.fn_defs(m.node)
+        for c in [c for c in prog.calls_in(m.node) if isinstance(c.func, ast.Attribute) and c.func.attr == "relative_to" and norm.raw(c.args[0] if c.args else None) == "self._directory"]:
+            v = c.func.value
+            if not isinstance(v, ast.Name):
+                continue
+            srcs = [norm.raw(x) for _d, x in defs.defs.get(v.id, []) if x is not None]
+            if not any(s_.endswith(".resolve()") for s_ in srcs):
+                continue  # the normpath of the joined path (follow-symlinks mode): nothing was resolved
+            st = next(x for x in prog.enclosing(c, (ast.stmt,)))
+            n += 1
+            cl = PC.pc(st, raw=True)
+            fix = any(len(cla) == 1 and ((not l.pos and l.text in (f"{v.id} != {v.id}.resolve()", f"{v.id}.resolve() != {v.id}")) or (l.pos and l.text in (f"{v.id} == {v.id}.resolve()", f"{v.id}.resolve() == {v.id}"))) for cla in cl for l in cla)
+            strict = any("strict=True" in s_ for s_ in srcs)
+            if fix or strict:
+                chk.ok("C15.sandbox.fixpoint", c, f"StaticResource.{mname}: `{v.id}` is compared with its own resolve() (or resolved strictly) before the containment test")
+            else:
+                chk.violation("C15.sandbox.fixpoint", c, K.short(st), f"if {v.id} != {v.id}.resolve(): raise ValueError(...)",
+                              f"StaticResource.{mname} trusts one Path.resolve(): at a circular symlink it stops and appends the rest of the path unresolved, so `/static/loop/../../escape -> /etc` passes relative_to(root) textually and the file outside the root is served (follow_symlinks=False)")
+    chk.expect_count("C15.sandbox.fixpoint", n, 2, "containment tests on a resolve()d path in StaticResource")
+    # ---- C15.cond.date: a date header that cannot be a date is ignored, not an error --------------------------------------------------------
+    pd = repo.func("aiohttp/helpers.py", "parse_http_date")
+    made = [c for c in prog.calls_in(pd.node) if norm.raw(c.func) in ("datetime.datetime", "datetime")]
+    if not made:
+        chk.analysis_error("C15.cond.date: parse_http_date() no longer builds a datetime")
+    for c in made:
+        caught = set()
+        for w in prog.enclosing(c, (ast.With,)):
+            for it in w.items:
+                ce = it.context_expr
+                if isinstance(ce, ast.Call) and norm.raw(ce.func) in ("suppress", "contextlib.suppress"):
+                    caught |= {norm.raw(a) for a in ce.args}
+        for _t, h in K.enclosing_try_handlers(c):
+            caught |= set(PC.handler_types(h)) if h.type is not None else {"BaseException"}
+        need_ = [x for x in ("ValueError", "OverflowError") if x not in caught and not ({"Exception", "BaseException", "ArithmeticError"} & caught if x == "OverflowError" else {"Exception", "BaseException"} & caught)]
+        if not need_:
+            chk.ok("C15.cond.date", c, "parse_http_date(): numbers that are out of range (ValueError) or too large for a C int (OverflowError) give `no date`")
+        else:
+            chk.violation("C15.cond.date", c, K.short(c, 60), "with suppress(ValueError, OverflowError)",
+                          f"datetime.datetime(*timetuple) can raise {', '.join(need_)} for the digits of a date header (`If-Modified-Since: Sat, 01 Jan 99999999999 00:00:00 GMT`): the conditional request is answered 500 instead of being served unconditionally")
 
 
 def conditional_rules(chk, repo):
